@@ -106,14 +106,37 @@ type fsig struct {
 
 type Prelude struct {
 	sigs map[string]fsig
+	defs map[string]*fdef // define-fun bodies, expanded when looking for lemma triggers
 }
+
+type fdef struct {
+	params []string
+	body   *sx
+}
+
+func substSx(x *sx, m map[string]*sx) *sx {
+	if !x.isList {
+		if r, ok := m[x.atom]; ok {
+			return r
+		}
+		return x
+	}
+	n := &sx{isList: true}
+	for _, c := range x.list {
+		n.list = append(n.list, substSx(c, m))
+	}
+	return n
+}
+
+var thePrelude *Prelude
 
 func parsePrelude(text string) (*Prelude, error) {
 	xs, err := parseSx(text)
 	if err != nil {
 		return nil, fmt.Errorf("prelude: %v", err)
 	}
-	p := &Prelude{sigs: map[string]fsig{}}
+	p := &Prelude{sigs: map[string]fsig{}, defs: map[string]*fdef{}}
+	thePrelude = p
 	for _, x := range xs {
 		if !x.isList || len(x.list) < 3 {
 			continue
@@ -131,6 +154,13 @@ func parsePrelude(text string) (*Prelude, error) {
 				as = append(as, a.list[1].String())
 			}
 			p.sigs[x.list[1].atom] = fsig{as, x.list[3].String()}
+			if len(x.list) >= 5 && len(x.list[2].list) > 0 {
+				d := &fdef{body: x.list[4]}
+				for _, a := range x.list[2].list {
+					d.params = append(d.params, a.list[0].atom)
+				}
+				p.defs[x.list[1].atom] = d
+			}
 		case "declare-const":
 			p.sigs[x.list[1].atom] = fsig{nil, x.list[2].String()}
 		}
@@ -141,14 +171,29 @@ func parsePrelude(text string) (*Prelude, error) {
 // ---- lemma instantiation ---------------------------------------------------------
 
 func collectApps(x *sx, heads map[string]bool, out map[string]*sx) {
+	collectAppsD(x, heads, out, 0)
+}
+
+func collectAppsD(x *sx, heads map[string]bool, out map[string]*sx, depth int) {
 	if !x.isList {
 		return
 	}
-	if len(x.list) > 0 && !x.list[0].isList && heads[x.list[0].atom] {
-		out[x.String()] = x
+	if len(x.list) > 0 && !x.list[0].isList {
+		h := x.list[0].atom
+		if heads[h] {
+			out[x.String()] = x
+		}
+		// look inside define-fun bodies: their applications hide trigger terms
+		if d, ok := thePrelude.defs[h]; ok && depth < 3 && len(d.params) == len(x.list)-1 {
+			m := map[string]*sx{}
+			for i, p := range d.params {
+				m[p] = x.list[i+1]
+			}
+			collectAppsD(substSx(d.body, m), heads, out, depth+1)
+		}
 	}
 	for _, c := range x.list {
-		collectApps(c, heads, out)
+		collectAppsD(c, heads, out, depth)
 	}
 }
 
